@@ -58,7 +58,7 @@ def _task(item):
         out['owner'] = owner.__name__
         if owner.__name__ != 'SparseVector': out['name'] = 'SLV.' + name
         out.update(paths=r['paths'], unsupported=r['unsupported'], obligations=r['obligations'],
-                   solver_s=r['solver_s'], wall_s=r.get('wall_s', 0))
+                   solver_s=r['solver_s'], wall_s=r.get('wall_s', 0), second=r.get('second', {}), second_s=r.get('second_s', 0.0))
         cex = []
         for nm, m in r['cex'][:3]:
             try:
@@ -230,7 +230,16 @@ def run(prop, tier, jobs, seed):
                 if status == 0: status = 2
         if len(samples) < 4:
             samples.append({'function': fq, 'paths': r['paths'], 'obligations': [f'{n} -> {v}' for n, v in r['obligations'][:6]]})
+    sec = {}
+    for r in res:
+        for k_, v_ in (r.get('second') or {}).items(): sec[k_] = sec.get(k_, 0) + v_
+    if sec.get('disagreed'):
+        print(f"UNDECIDED C09/U: z3 and cvc5 disagree on {sec['disagreed']} verification condition(s) (z3 unsat, cvc5 sat)")
+        if status == 0: status = 2
     cov = {'obligations': n_ob, 'discharged': n_dis, 'obligations_U': n_ob,
+           'second_back_end': {'solver': 'cvc5 1.0.3 (/usr/bin/cvc5) on the SMT-LIB text of the same z3 terms (array lambdas hoisted into defining axioms)',
+                               'queries': sec, 'solver_time_s': round(sum(r.get('second_s', 0) for r in res), 2),
+                               'meaning': 'confirmed = VCs (obligations, path-infeasibility and internal queries) answered unsat by z3 AND by cvc5; z3_only = cvc5 gave no answer; decided_by_cvc5 = z3 unknown, cvc5 unsat'},
            'functions_under_contract': functions,
            'unsupported_by_mode_U': unsupported,
            'samples': samples,
